@@ -45,6 +45,7 @@ type c21Input struct {
 	CutFrac  int    `json:"cut_permille"` // cut scenarios: position = wire length * permille / 1000 (1000+ = no cut)
 	CutAbs   int    `json:"cut_abs"`      // or an absolute position when > 0
 	Rep      int    `json:"rep"`
+	WalEmpty bool   `json:"wal_empty"` // blocked scenarios: the WAL is empty when the backup starts
 }
 
 // ---------------------------------------------------------------- network pieces owned by the harness
@@ -243,7 +244,7 @@ func c21NewEnv(t *testing.T) *c21Env {
 	e.wg.Add(1)
 	go func() {
 		defer e.wg.Done()
-		for i := int64(1); ; i++ {
+		for {
 			for atomic.LoadInt32(&e.pause) == 1 {
 				select {
 				case e.paused <- struct{}{}:
@@ -260,21 +261,31 @@ func c21NewEnv(t *testing.T) *c21Env {
 				return
 			default:
 			}
-			d := c21Delta(i)
-			atomic.StoreInt64(&e.started, i)
-			res, _, err := e.st.Execute(context.Background(), c21Stmts(
-				fmt.Sprintf("UPDATE a SET v = v - (%d) WHERE id = 1", d),
-				fmt.Sprintf("UPDATE z SET v = v + (%d) WHERE id = 1", d),
-				fmt.Sprintf("INSERT INTO zlog(seq, delta) VALUES(%d, %d)", i, d)))
-			if err != nil || len(res) != 3 {
-				// a failed write would make the committed prefix unknown: stop writing
-				t.Errorf("writer: %v %v", err, res)
+			if !e.commitOne() {
 				return
 			}
-			atomic.StoreInt64(&e.acked, i)
 		}
 	}()
 	return e
+}
+
+// commitOne commits the next transaction of the workload (the writer goroutine, or the harness while the
+// writer is paused — never both).
+func (e *c21Env) commitOne() bool {
+	i := atomic.LoadInt64(&e.started) + 1
+	d := c21Delta(i)
+	atomic.StoreInt64(&e.started, i)
+	res, _, err := e.st.Execute(context.Background(), c21Stmts(
+		fmt.Sprintf("UPDATE a SET v = v - (%d) WHERE id = 1", d),
+		fmt.Sprintf("UPDATE z SET v = v + (%d) WHERE id = 1", d),
+		fmt.Sprintf("INSERT INTO zlog(seq, delta) VALUES(%d, %d)", i, d)))
+	if err != nil || len(res) != 3 {
+		// a failed write would make the committed prefix unknown: stop writing
+		e.t.Errorf("writer: %v %v", err, res)
+		return false
+	}
+	atomic.StoreInt64(&e.acked, i)
+	return true
 }
 
 func (e *c21Env) close() {
@@ -603,6 +614,157 @@ func c21RunCut(e *c21Env, w *vWriter, in c21Input) {
 	w.Emit(vc)
 }
 
+// ---------------------------------------------------------------- scenario 3: the consumer of the backup stalls
+
+// c21GateWriter takes `blockAt` writes, then stalls until released: the backup is in the middle of its copy.
+type c21GateWriter struct {
+	buf     bytes.Buffer
+	n       int
+	blockAt int
+	blocked chan struct{}
+	release chan struct{}
+}
+
+func (g *c21GateWriter) Write(p []byte) (int, error) {
+	g.buf.Write(p)
+	g.n++
+	if g.n == g.blockAt {
+		close(g.blocked)
+		<-g.release
+	}
+	return len(p), nil
+}
+
+func c21FindKey(m map[string]any, key string) (any, bool) {
+	if v, ok := m[key]; ok {
+		return v, true
+	}
+	for _, v := range m {
+		if mm, ok := v.(map[string]any); ok {
+			if r, ok := c21FindKey(mm, key); ok {
+				return r, true
+			}
+		}
+	}
+	return nil, false
+}
+
+func (e *c21Env) gateOwner() string {
+	st, _ := e.st.Stats()
+	cas, _ := st["snapshot_cas"].(map[string]any)
+	o, _ := cas["owner"].(string)
+	return o
+}
+
+func (e *c21Env) walSize() int64 {
+	st, _ := e.st.Stats()
+	v, ok := c21FindKey(st, "wal_size")
+	if !ok {
+		return -1
+	}
+	n, _ := v.(int64)
+	return n
+}
+
+// c21RunBlocked: deterministic schedule "backup step; commit; snapshot attempt; backup steps".
+func c21RunBlocked(e *c21Env, w *vWriter, in c21Input) {
+	e.pauseWriter()
+	defer e.resumeWriter()
+	vc := VCase{Input: in, Key: fmt.Sprintf("blocked|%s|%v|%v|wal_empty=%v|%d", in.Format, in.Vacuum, in.Compress, in.WalEmpty, in.Rep),
+		Tags: []string{"kind=blocked", "fmt=" + in.Format, fmt.Sprintf("vacuum=%v", in.Vacuum), fmt.Sprintf("compress=%v", in.Compress), fmt.Sprintf("wal_empty=%v", in.WalEmpty)}}
+	// bring the node to a known point: everything snapshotted (WAL empty, nothing pending for the snapshot loop)
+	for i := 0; i < 100; i++ {
+		err := e.st.Snapshot(0)
+		if (err == nil || err == store.ErrNothingNewToSnapshot || err == store.ErrNoWALToSnapshot) && e.walSize() == 0 {
+			break
+		}
+		time.Sleep(20 * time.Millisecond)
+	}
+	if !in.WalEmpty {
+		if !e.commitOne() {
+			return
+		}
+	}
+	if ws := e.walSize(); (ws == 0) != in.WalEmpty {
+		vc.Inconcl = fmt.Sprintf("could not set up the WAL (size %d, wanted empty=%v)", ws, in.WalEmpty)
+		w.Emit(vc)
+		return
+	}
+	lo := atomic.LoadInt64(&e.acked)
+	gw := &c21GateWriter{blockAt: 1, blocked: make(chan struct{}), release: make(chan struct{})}
+	if in.Format == "sql" {
+		gw.blockAt = 3 // header, schema of the first table, its first row: the dump has started reading
+	}
+	done := make(chan error, 1)
+	go func() { done <- e.st.Backup(context.Background(), in.request(), gw) }()
+	var berr error
+	stalled := false
+	select {
+	case <-gw.blocked:
+		stalled = true
+	case berr = <-done:
+	case <-time.After(20 * time.Second):
+		vc.Inconcl = "backup neither stalled nor finished"
+		close(gw.release)
+		w.Emit(vc)
+		return
+	}
+	owner, snapOutcome := "", "none"
+	if stalled {
+		owner = e.gateOwner()
+		if !e.commitOne() {
+			close(gw.release)
+			return
+		}
+		serr := e.st.Snapshot(0)
+		switch {
+		case serr == nil:
+			snapOutcome = "ok"
+		case strings.Contains(serr.Error(), "CAS conflict"):
+			snapOutcome = "refused"
+		default:
+			snapOutcome = "error"
+			vc.Tags = append(vc.Tags, "snapshot-error="+serr.Error())
+		}
+		close(gw.release)
+		select {
+		case berr = <-done:
+		case <-time.After(30 * time.Second):
+			vc.Inconcl = "backup did not finish after the consumer resumed"
+			w.Emit(vc)
+			return
+		}
+	}
+	hi := atomic.LoadInt64(&e.started)
+	vc.Nontrivial = stalled
+	vc.Tags = append(vc.Tags, "snapshot-during-copy="+snapOutcome, "gate-owner="+owner)
+	obs := "OErr"
+	if berr == nil {
+		st := c21Load(e.t.TempDir(), in, gw.buf.Bytes())
+		ok, sig, msg := c21Judge(st, lo, hi)
+		if !ok {
+			vc.OracleFail = fmt.Sprintf("Store.Backup(%s) whose consumer stalled after %d write(s) (WAL empty at start: %v) while transaction %d committed and Store.Snapshot answered %q returned nil and %d bytes: %s",
+				in.query(), gw.blockAt, in.WalEmpty, hi, snapOutcome, gw.buf.Len(), msg)
+			vc.Sig = fmt.Sprintf("C21:%s:%s", sig, in.Format)
+			if in.Format == "sql" && (sig == "invariant-broken" || sig == "not-a-committed-prefix") {
+				vc.Sig = "C21:dump-not-point-in-time"
+			}
+		}
+		if st.Loadable {
+			ka, kb := c21Find(c21Total-st.A, lo, hi), c21Find(st.B, lo, hi)
+			obs = fmt.Sprintf("(OState %s %s %s %s)", coqOpt(ka >= 0, coqN(uint64(max64(ka, 0)))), coqOpt(kb >= 0, coqN(uint64(max64(kb, 0)))), coqN(uint64(st.LogN)), coqBool(st.Pad == c21Pad && st.Index && st.LogMax == st.LogN))
+		} else {
+			obs = "OGarbage"
+		}
+	} else if in.valid() {
+		vc.OracleFail = fmt.Sprintf("Store.Backup(%s) with a stalled consumer failed: %v", in.query(), berr)
+		vc.Sig = "C21:valid-backup-refused"
+	}
+	vc.Coq = fmt.Sprintf("{| %s; c_scn := Blocked %s %s %s %s %s %s %s |}", in.coqFlags(), coqBool(in.WalEmpty), coqN(uint64(lo)), coqN(uint64(hi)),
+		coqBool(stalled), coqBool(owner == "backup"), coqBool(snapOutcome == "refused"), obs)
+	w.Emit(vc)
+}
+
 // ---------------------------------------------------------------- main
 
 func TestVerif_C21(t *testing.T) {
@@ -617,6 +779,8 @@ func TestVerif_C21(t *testing.T) {
 		}
 		if in.Kind == "cut" {
 			c21RunCut(e, w, in)
+		} else if in.Kind == "blocked" {
+			c21RunBlocked(e, w, in)
 		} else {
 			c21RunLive(e, w, in)
 		}
@@ -649,6 +813,16 @@ func TestVerif_C21(t *testing.T) {
 			for _, remote := range []bool{false, true} {
 				in := c
 				in.Kind, in.Remote, in.Rep = "live", remote, r
+				run(in)
+			}
+		}
+	}
+	// the consumer stalls mid-copy while a transaction commits and a snapshot is requested
+	for r := 0; r < vN(1, 10); r++ {
+		for _, walEmpty := range []bool{true, false} {
+			for _, c := range []c21Input{{Format: "binary"}, {Format: "binary", Compress: true}, {Format: "binary", Vacuum: true}, {Format: "sql"}, {Format: "delete"}, {Format: "sql", Compress: true}} {
+				in := c
+				in.Kind, in.WalEmpty, in.Rep = "blocked", walEmpty, r
 				run(in)
 			}
 		}
